@@ -46,7 +46,8 @@ Proof.
       fold nodes1 in L. destruct (memZ n (nodes st)) eqn:Hn.
       - pose proof (remove_length n (nodes st) Hn) as L2. fold nodes1 in L2. lia.
       - lia. }
-    destruct (dels_total (delete_fuel k dtr) k) with (cs := opt_list (find_aggregates_of st n))
+    destruct (dels_total (delete_fuel k dtr) k)
+      with (cs := opt_list (if memZ n (nodes st) then find_aggregates_of st n else None))
                                                    (cur := mk_astate nodes1 rs1)
       as (st2 & E2 & H2).
     + intros cur c Hc Hlen. apply IH. unfold need. rewrite Hc. lia.
@@ -69,7 +70,7 @@ Lemma delete_fuel_mono dtr : forall k st n r,
 Proof.
   induction k as [|k IH]; intros st n r E; [discriminate|].
   cbn [delete_fuel] in E. change (delete_fuel (S (S k)) dtr st n) with
-    (let child_nodes := find_aggregates_of st n in
+    (let child_nodes := if memZ n (nodes st) then find_aggregates_of st n else None in
      let removed_node := memZ n (nodes st) in
      let nodes1 := filter (fun x => negb (x =? n)) (nodes st) in
      let '(removed_target_references, rs1) :=
